@@ -221,6 +221,14 @@ func SingleConstructs() []*ref.Pat {
 			out = append(out, &ref.Pat{K: "br", Neg: neg, Items: []*ref.Pat{{K: "lit", R: 'x'}, {K: "rng", R: rg[0], R2: rg[1], Spell: 8}}})
 		}
 	}
+	// patterns made of literals only, with escaped backslashes and escaped specials next to plain characters
+	for _, word := range []string{"C:\\tmp", "\\\\", "a\\b\\c", ".\\*", "\\x", "x\\", "(\\)", "a.b", "1+1=2", "\\\\n"} {
+		c := &ref.Pat{K: "cat"}
+		for _, r := range word {
+			c.Subs = append(c.Subs, &ref.Pat{K: "lit", R: r})
+		}
+		out = append(out, c)
+	}
 	// every ASCII character as a literal in its canonical spelling, and in every escape form
 	for r := rune(1); r <= 0x7F; r++ {
 		out = append(out, &ref.Pat{K: "lit", R: r})
